@@ -71,7 +71,7 @@ CHECKS = {
 }
 
 NOT_APPLICABLE = [
-    {"property_id": "C15", "reason": "Equality and hashing are pure functions of a pair of values: no schedule, clock, fault, history or interleaving can influence them, so deterministic simulation with fault injection has nothing to decide (DESIGN 1). The harness never relies on the library's ==."},
+    {"property_id": "C15", "reason": "Equality and hashing are pure functions of a pair of values: no schedule, clock, fault, history or interleaving can influence them, so deterministic simulation with fault injection has nothing to decide (DESIGN 1). The harness's own comparisons never rely on the library's == (operations are compared by identity or by (job, position)); C14 merely demands that a rebuilt instance or schedule compares equal to the original."},
 ]
 
 PENDING = ["C03", "C04", "C08", "C09", "C10", "C11", "C12", "C13", "C14", "C16", "C17", "C18", "C19", "C20"]
